@@ -79,7 +79,7 @@ SD_LET = ("off = ite_(is_none(attr(obj(self), 'offset')), 0.0, as_real(attr(obj(
           "s = as_real(attr(obj(self), 'sampling_interval')); ")
 
 REG.contract(
-    "nixio.dimensions.SampledDimension.position_at", props=["C07"],
+    "nixio.dimensions.SampledDimension.position_at", replay=dict(harness="c07_sampled"), props=["C07"],
     params=dict(self=Obj("SampledDimension"), index=Int), result=Real,
     requires=SD_DOMAIN, let=SD_LET,
     ensures=[("pos", "result == index * s + off", "prop")], prop_clauses=["pos"])
@@ -101,7 +101,7 @@ def sd_exact(ex, p, q, mode):
 
 
 REG.contract(
-    "nixio.dimensions.SampledDimension.index_of", props=["C07"],
+    "nixio.dimensions.SampledDimension.index_of", replay=dict(harness="c07_sampled"), props=["C07"],
     params=dict(self=Obj("SampledDimension"), position=Real, mode=Enum("IndexMode")), result=Int,
     requires=SD_DOMAIN,
     let=SD_LET + "q = rdiv(position - off, s); j = rhe(q); "
@@ -127,7 +127,7 @@ REG.contract(
 RANGE_RESULT = ("is_none(result) or (is_intseq(result) and len(as_intseq(result)) == 2)")
 
 REG.contract(
-    "nixio.dimensions.SampledDimension.range_indices", props=["C07"],
+    "nixio.dimensions.SampledDimension.range_indices", replay=dict(harness="c07_sampled"), props=["C07"],
     params=dict(self=Obj("SampledDimension"), start_position=Real, end_position=Real, mode=Enum("SliceMode")),
     result=Dyn, requires=SD_DOMAIN,
     let=SD_LET + "qs = rdiv(start_position - off, s); qe = rdiv(end_position - off, s); js = rhe(qs); je = rhe(qe); "
@@ -191,7 +191,7 @@ def rd_holds(ex, p, T, i, pos, mode):
 
 
 REG.contract(
-    "nixio.dimensions.RangeDimension.index_of", props=["C07"],
+    "nixio.dimensions.RangeDimension.index_of", replay=dict(harness="c07_range"), props=["C07"],
     params=dict(self=Obj("RangeDimension"), position=Real, mode=Enum("IndexMode"), ticks=Opt(SeqOf(Real))),
     result=Int,
     let="T = ite_(is_none(ticks), range_ticks(self), as_realseq(ticks)); n = len(T)",
@@ -206,7 +206,7 @@ REG.contract(
     prop_clauses=["rd.in", "rd.last", "rd.first", "raises-iff:IndexError", "raises-only:IndexError"])
 
 REG.contract(
-    "nixio.dimensions.RangeDimension.range_indices", props=["C07"],
+    "nixio.dimensions.RangeDimension.range_indices", replay=dict(harness="c07_range"), props=["C07"],
     params=dict(self=Obj("RangeDimension"), start_position=Real, end_position=Real, mode=Enum("SliceMode")),
     result=Dyn,
     let="T = range_ticks(self); n = len(T); em = ite_(mode == SliceMode.Exclusive, IndexMode.Less, IndexMode.LessOrEqual)",
@@ -222,7 +222,7 @@ REG.contract(
     prop_clauses=["rng.some", "rng.none"])
 
 REG.contract(
-    "nixio.dimensions.RangeDimension.tick_at", props=["C07"],
+    "nixio.dimensions.RangeDimension.tick_at", replay=dict(harness="c07_range"), props=["C07"],
     params=dict(self=Obj("RangeDimension"), index=Int), result=Real,
     let="T = range_ticks(self); n = len(T)",
     raises={"IndexError": ("index < -n or index >= n", "prop")},
@@ -230,7 +230,7 @@ REG.contract(
     prop_clauses=["tick", "raises-iff:IndexError", "raises-only:IndexError"])
 
 REG.contract(
-    "nixio.dimensions.RangeDimension.axis", props=["C07"],
+    "nixio.dimensions.RangeDimension.axis", replay=dict(harness="c07_range"), props=["C07"],
     params=dict(self=Obj("RangeDimension"), count=Int, start=Int), result=SeqOf(Real),
     let="T = range_ticks(self); n = len(T)",
     requires=["count >= 0", "start >= 0"],
@@ -277,7 +277,7 @@ def set_exact(ex, p, pos, mode, n):
 
 
 REG.contract(
-    "nixio.dimensions.SetDimension.index_of", props=["C07"],
+    "nixio.dimensions.SetDimension.index_of", replay=dict(harness="c07_set"), props=["C07"],
     params=dict(self=Obj("SetDimension"), position=Real, mode=Enum("IndexMode"), dim_labels=Opt(SeqOf(Str))),
     result=Int,
     let="L = ite_(is_none(dim_labels), set_labels(self), as_strseq(dim_labels)); n = len(L); j = floor_(position); "
@@ -288,7 +288,7 @@ REG.contract(
     prop_clauses=["idx", "idx.nonneg", "raises-only:IndexError"])
 
 REG.contract(
-    "nixio.dimensions.SetDimension.range_indices", props=["C07"],
+    "nixio.dimensions.SetDimension.range_indices", replay=dict(harness="c07_set"), props=["C07"],
     params=dict(self=Obj("SetDimension"), start_position=Real, end_position=Real, mode=Enum("SliceMode")),
     result=Dyn,
     requires=["start_position <= end_position"],
